@@ -111,8 +111,16 @@ PENDING = {
 # additions of the later build phase, appended to the level text of the checks they concern
 TREND = " Also long one-sided trend streams with a zig-zag (up to 3 000 bars quick / 30 000 thorough) that drive run, peak and bars-since counters far from their initial values."
 FUZZ = " Thorough tier adds a libFuzzer + AddressSanitizer campaign (40 000 executions of up to 2 000 candles each) of the indicator_program target (any indicator, configuration valid by construction, lattice candle stream of up to 2 000 bars) with this property's oracle inside the target; its committed corpus is replayed in both tiers."
+CHECKS["C02"]["text"] += " Also bounded-exhaustive: every stream of length <= 7 (thorough 9) over a four-letter alphabet with ties, zero and both signs, windows 1..=4, two construction values, for each value-input method; candle-input methods (windowed ADI) with an independent construction candle in half of the cases."
+CHECKS["C03"]["text"] += " Also bounded-exhaustive: every stream of length <= 6 (thorough 8) over {0,1,2,4} for n in {1,2,3,4,7} with every letter as construction value (dyadic data on dyadic smoothing constants: exact ties), for each recurrence of the EMA family; TR and HeikinAshi with an independent construction candle in half of the cases."
+CHECKS["C07"]["text"] += " Also: 4*10^6 (thorough 3*10^7) steps for the fourteen O(1) single-accumulator and selection methods (very_long_*), and every one of the 37 indicators on 3*10^4 (4*10^5) candles of regime streams, persistent trends with a zig-zag and strictly monotone 70 000-bar rises/falls with the documented ranges and every signal checked at every step (long_any_*)."
+CHECKS["C09"]["text"] += " Also the same laws on streams of up to 700 (thorough 2000) elements (histories, chunk and clone points beyond PeriodType::MAX) and the documented accessor functions (get_last_value, get_value, b(), tan(), get_divider, get_window, get_sma, get_smm) against the main path."
+CHECKS["C14"]["text"] += " With new(first pair) the construction pair is 'the previous step' only (not fed again) in half of the cases."
+CHECKS["C17"]["text"] += " RenkoOutput's iterator observers (len, size_hint, count, last, nth, step_by) are checked after every split into a consumed and an unconsumed part, its OHLCV view exactly; the batch collapse also on sequences shorter than one period and on the empty sequence."
 for k in ("C05", "C06", "C10", "C12", "C13"):
     CHECKS[k]["text"] += TREND
+for k in ("C05", "C06"):
+    CHECKS[k]["text"] += " Also candle streams on an exactly representable lattice (ticks of 1/4: exact ties between prices, averages and thresholds) and one stream in seven at a tiny price scale (1e-12..1e-6)."
 for k in ("C05", "C06", "C09", "C10", "C11", "C12", "C13"):
     CHECKS[k]["text"] += FUZZ
     if "libFuzzer" not in CHECKS[k]["technique"]:
